@@ -336,7 +336,19 @@ func handle(line string) string {
 		if err != nil {
 			return "err " + kindOf(err)
 		}
-		return "ok " + natsStr(c)
+		// the returned list belongs to the caller: scribble over it and look the pair up again
+		first := natsStr(c)
+		for i := range c {
+			c[i] = 0xdead
+		}
+		c2, err := conway.Lookup(u(t[1]), u(t[2]))
+		if err != nil {
+			return "err-second-lookup " + kindOf(err)
+		}
+		if natsStr(c2) != first {
+			return "ok " + natsStr(c2) + " (second look-up; the first returned " + first + ")"
+		}
+		return "ok " + first
 	case "conwayseq":
 		// several look-ups in one process, in the given order (anything memoised between calls shows)
 		var outs []string
@@ -346,6 +358,9 @@ func handle(line string) string {
 				outs = append(outs, "err "+kindOf(err))
 			} else {
 				outs = append(outs, "ok "+natsStr(c))
+				for j := range c {
+					c[j] = 0xdead
+				}
 			}
 		}
 		return strings.Join(outs, " ; ")
